@@ -121,6 +121,12 @@ var mgWants = []mgWant{
 	{"internal/trigger/api/iteration_distribution.go", "", "NewDistribution", "", "api_NewDistribution"},
 	{"internal/trigger/api/iteration_distribution.go", "", "withRegularDistribution", "", "dist_regular_outer"},
 	{"internal/trigger/api/iteration_distribution.go", "", "withRandomDistribution", "", "dist_random_outer"},
+	{"internal/trigger/gaussian/gaussian_rate.go", "", "CalculateGaussianRate", "", "calc_gaussian"},
+	{"internal/raterun/runner.go", "", "New", "", "runner_New"},
+	{"internal/raterun/runner.go", "", "newSchedules", "", "schedules_new"},
+	{"internal/workers/pool_manager.go", "", "New", "", "manager_New"},
+	{"internal/workers/trigger_pool.go", "", "newTriggerPool", "", "pool_new"},
+	{"internal/workers/continuous_pool.go", "", "newContinuousPool", "", "cpool_new"},
 	{"pkg/f1/f1.go", "F1", "execute", "", "f1_execute"},
 	{"pkg/f1/f1.go", "", "newSignalContext", "", "f1_newSignalContext"},
 	{"pkg/f1/f1.go", "", "newSignalContext", "#0", "f1_signalLoop"},
@@ -512,6 +518,10 @@ func (c *mgCtx) expr(e ast.Expr) string {
 			// s == "" / s != "": the length of the string against 0
 			for _, pair := range [][2]ast.Expr{{x.X, x.Y}, {x.Y, x.X}} {
 				if bl, ok := pair[1].(*ast.BasicLit); ok && bl.Kind == token.STRING && (bl.Value == `""` || bl.Value == "``") {
+					if id, isId := pair[0].(*ast.Ident); isId && dynVars[id.Name] {
+						// the element a range loop is at: its length is a projection of the value
+						return "(.bin ." + binOps[x.Op] + " (.field (.var " + leanStr(c.path(id)) + ") \"len()\") (.int 0))"
+					}
 					if p := c.path(pair[0]); p != "" {
 						return "(.bin ." + binOps[x.Op] + " (.len " + leanStr(p) + ") (.int 0))"
 					}
@@ -553,6 +563,11 @@ func (c *mgCtx) call(x *ast.CallExpr) string {
 		if f.Name == "make" && len(x.Args) >= 1 {
 			if _, isChan := x.Args[0].(*ast.ChanType); isChan {
 				return ".fresh" // a new channel
+			}
+			if _, isSlice := x.Args[0].(*ast.ArrayType); isSlice && len(x.Args) == 3 {
+				if bl, ok := x.Args[1].(*ast.BasicLit); ok && bl.Value == "0" {
+					return ".fresh" // make([]T, 0, n): a new, empty slice (its elements arrive by append)
+				}
 			}
 		}
 		switch f.Name {
@@ -704,6 +719,9 @@ func (c *mgCtx) naryPkgCall(e ast.Expr) (string, []ast.Expr, bool) {
 	if !ok || len(call.Args) < 3 {
 		return "", nil, false
 	}
+	if fid, isId := call.Fun.(*ast.Ident); isId && fid.Name == "make" {
+		return "", nil, false
+	}
 	if fid, isId := call.Fun.(*ast.Ident); isId {
 		// f(a, b, c, …): a function of this package (declared in this file or another one), not a function value
 		if c.rename[fid.Name] == "" && c.alias[fid.Name] == "" && (fid.Obj == nil || fid.Obj.Kind == ast.Fun) && !isFuncValue(call.Fun) {
@@ -850,6 +868,27 @@ func (c *mgCtx) src(e ast.Expr) string {
 	var b strings.Builder
 	_ = printer.Fprint(&b, c.fset, e)
 	return b.String()
+}
+
+// the body of a loop in which `if cond { continue }` statements stand at the top level: what follows such a statement runs
+// only when cond is false (the loop's own step - index increment, post statement - is appended by the caller and always runs)
+func (c *mgCtx) loopBody(list []ast.Stmt) string {
+	for i, st := range list {
+		ifs, ok := st.(*ast.IfStmt)
+		if !ok || ifs.Else != nil || ifs.Init != nil || len(ifs.Body.List) != 1 {
+			continue
+		}
+		br, ok := ifs.Body.List[0].(*ast.BranchStmt)
+		if !ok || br.Tok != token.CONTINUE || br.Label != nil {
+			continue
+		}
+		rest := "(.ite " + c.expr(ifs.Cond) + "\n  .skip\n  " + c.loopBody(list[i+1:]) + ")"
+		if i == 0 {
+			return rest
+		}
+		return seq([]string{c.block(list[:i]), rest})
+	}
+	return c.block(list)
 }
 
 func (c *mgCtx) assignTo(lhs ast.Expr, rhs string) string {
@@ -1012,6 +1051,30 @@ func (c *mgCtx) stmt(s ast.Stmt) string {
 			if id, ok := x.Lhs[0].(*ast.Ident); ok && x.Tok == token.DEFINE {
 				if _, aliased := c.alias[id.Name]; aliased {
 					return ".skip"
+				}
+				if u, ok := x.Rhs[0].(*ast.UnaryExpr); ok && u.Op == token.AND {
+					if cl, ok := u.X.(*ast.CompositeLit); ok && len(cl.Elts) > 0 {
+						// x := &T{F: e, …}: the fields the new value is made of become observable as `$new.x.F`
+						var parts []string
+						okAll := true
+						for _, el := range cl.Elts {
+							kv, ok := el.(*ast.KeyValueExpr)
+							if !ok {
+								okAll = false
+								break
+							}
+							k, ok := kv.Key.(*ast.Ident)
+							if !ok {
+								okAll = false
+								break
+							}
+							parts = append(parts, "(.assign "+leanStr("$new."+id.Name+"."+k.Name)+" "+c.expr(kv.Value)+")")
+						}
+						if okAll {
+							parts = append(parts, "(.assign "+leanStr(c.path(id))+" .fresh)")
+							return seq(parts)
+						}
+					}
 				}
 				if ix, isIdx := x.Rhs[0].(*ast.IndexExpr); isIdx && c.body != nil {
 					// cur := xs[i] for a slice of structs: a copy, field by field (those the function reads)
@@ -1235,7 +1298,7 @@ func (c *mgCtx) stmt(s ast.Stmt) string {
 		if id, ok := x.Value.(*ast.Ident); ok {
 			dynVars[id.Name] = true
 		}
-		body = append(body, c.block(x.Body.List))
+		body = append(body, c.loopBody(x.Body.List))
 		if id, ok := x.Value.(*ast.Ident); ok {
 			delete(dynVars, id.Name)
 		}
@@ -1265,6 +1328,30 @@ func (c *mgCtx) stmt(s ast.Stmt) string {
 				}
 				parts = append(parts, ".ret0")
 				return seq(parts)
+			}
+			if u, ok := x.Results[0].(*ast.UnaryExpr); ok && u.Op == token.AND {
+				if cl, ok := u.X.(*ast.CompositeLit); ok && len(cl.Elts) > 0 {
+					// return &T{F: e, …}: the fields of the result, then return
+					var parts []string
+					okAll := true
+					for _, el := range cl.Elts {
+						kv, ok := el.(*ast.KeyValueExpr)
+						if !ok {
+							okAll = false
+							break
+						}
+						k, ok := kv.Key.(*ast.Ident)
+						if !ok {
+							okAll = false
+							break
+						}
+						parts = append(parts, "(.assign "+leanStr("$ret."+k.Name)+" "+c.expr(kv.Value)+")")
+					}
+					if okAll {
+						parts = append(parts, "(.ret1 .fresh)")
+						return seq(parts)
+					}
+				}
 			}
 			if call, ok := x.Results[0].(*ast.CallExpr); ok {
 				// return f(T{F: e, …}): the fields of the literal become observable as `$lit.<T>.<F>`, then the call
